@@ -65,6 +65,25 @@ def widening(ctx, pfx, A, b):
               why='Into<f64> exists only for types that convert to f64 without loss')
 
 
+def dim_count_ok(n_term, nd, loops3, ranks):
+    """the dim loop runs over all n_dims columns: its trip count is n_dims, or min(n_dims, len(builders)) when it walks the builder
+    vector and the cell in lockstep (zip) -- the builder vector has n_dims entries from its construction and element updates keep
+    its length"""
+    n_c = canon_nd(n_term, ranks)
+    nd = canon_nd(nd, ranks)
+    if n_c is nd:
+        return True
+    lout, lmid, linner = loops3
+    for k in linner.lh:
+        outk = [x for x in lout.lh if keyrepr(x) == keyrepr(k)]
+        if not outk or seq_len(lout.init[outk[0]]) is not nd:
+            continue
+        heads = [l_.lh[x] for l_ in (lout, lmid, linner) for x in l_.lh if keyrepr(x) == keyrepr(k)]
+        if any(n_c is T.app('min', *sorted([nd, T.app('len', h_)], key=T.key)) for h_ in heads):
+            return True
+    return False
+
+
 def builders(ctx, pfx, A, ev, loops3, ci, oi, chain_first, value_of, nd, sp):
     """column builders: chain/observation appended once per row with the loop index of their axis, dim builders per element"""
     lmid, linner = loops3[1], loops3[2]
@@ -85,7 +104,7 @@ def builders(ctx, pfx, A, ev, loops3, ci, oi, chain_first, value_of, nd, sp):
     if len(dk) == 1:
         lh = linner.lh[dk[0]]
         exp = T.app('upd', lh, j, T.app('post0', T.app(APPEND, index_term(lh, j), value_of(j))))
-        okd = canon_nd(linner.next[dk[0]], ctx.extra.get('_ranks', {})) is exp and linner.n is nd
+        okd = canon_nd(linner.next[dk[0]], ctx.extra.get('_ranks', {})) is exp and dim_count_ok(linner.n, nd, loops3, ctx.extra.get('_ranks', {}))
     ctx.check(pfx + '.values.dims', A, 'dim-columns', okd, expected='dim builder j receives element j of the (chain, observation) cell, for every j < n_dims', found=show(linner.next[dk[0]])[:300] if dk else 'no builder vector', sp=linner.sp,
               why='column dim_j holds exactly the stored values')
     if not (ok_rows and len(dk) == 1):
@@ -234,8 +253,8 @@ def array_arrow_like(ctx, path, pfx, closer):
         t, m, inner = rl[0]
         ci, oi = t.var, m.var
         okloops = t.n is index_term(T.app('shape', data), N(0)) and m.n is index_term(T.app('shape', T.app('index_axis', data, AX(0), ci)), N(0)) and isinstance(t.elem, Tup) and ev.t(t.elem.items[0]) is ci \
-            and isinstance(m.elem, Tup) and ev.t(m.elem.items[0]) is oi and isinstance(inner[0].elem, Tup) and ev.t(inner[0].elem.items[0]) is inner[0].var \
-            and canon_nd(inner[0].n, {data: 3}) is nd
+            and isinstance(m.elem, Tup) and ev.t(m.elem.items[0]) is oi and isinstance(inner[0].elem, Tup) \
+            and dim_count_ok(inner[0].n, nd, (t, m, inner[0]), {data: 3})      # (which element goes to which builder is decided by .values.dims)
         ctx.check(pfx + '.values.loops', A, 'loops', okloops, expected='chain loop over axis 0, observation loop over axis 1, dim loop over axis 2, indices from enumerate', found='n=%s / %s / %s' % (show(t.n)[:80], show(m.n)[:80], show(inner[0].n)[:80]), sp=t.sp,
                   why='one row per (chain, observation) cell, labelled with its indices')
         builders(ctx, pfx, A, ev, (t, m, inner[0]), ci, oi, True, lambda j: sel(data, ci, oi, j), canon_nd_n(inner[0].n, data), sp)
